@@ -29,8 +29,9 @@ structure BitsI (β : Type) where
   reset : β → β
   /-- `NewBitString(CellBits)` -/
   fresh : β
-  /-- the bit string `ReadRemainingBits()` returns (the receiver's cursor is restored by `CopyRemaining`) -/
-  remaining : β → β
+  /-- the bit string `ReadRemainingBits()` returns (the receiver's cursor is restored by `CopyRemaining`); a panic
+  inside `ReadBits` propagates, an error is dropped by Go (`bs, _ := …`: the zero bit string) -/
+  remaining : β → Outcome β
   /-- `len` (for the check of `NewCellWithBits`) -/
   len : β → Nat
   availRead : β → Int
@@ -113,19 +114,22 @@ def copyRemainingH (h : Heap β) (t : Nat) : Outcome Nat × Heap β :=
   match h[t]? with
   | none => (.err errNoCell, h)
   | some c =>
-    let b := I.remaining c.bits
-    if I.len b > cellBits then (.panic "bit string not fit to Cell", h)
-    else
-      let newId := h.length
-      let h0 := h ++ [{ bits := b, refs := [], refCursor := 0 }]
-      match copyLoop I (c.refs.length - c.refCursor) h0 t newId with
-      | (.ok _, h1) =>
-        -- c.refCursor = refCursor (the saved value)
-        match h1[t]? with
-        | some c1 => (.ok newId, h1.set t { c1 with refCursor := c.refCursor })
-        | none => (.ok newId, h1)
-      | (.err e, h1) => (.err e, h1)
-      | (.panic p, h1) => (.panic p, h1)
+    match I.remaining c.bits with
+    | .panic p => (.panic p, h)
+    | .err e => (.err e, h)
+    | .ok b =>
+      if I.len b > cellBits then (.panic "bit string not fit to Cell", h)
+      else
+        let newId := h.length
+        let h0 := h ++ [{ bits := b, refs := [], refCursor := 0 }]
+        match copyLoop I (c.refs.length - c.refCursor) h0 t newId with
+        | (.ok _, h1) =>
+          -- c.refCursor = refCursor (the saved value)
+          match h1[t]? with
+          | some c1 => (.ok newId, h1.set t { c1 with refCursor := c.refCursor })
+          | none => (.ok newId, h1)
+        | (.err e, h1) => (.err e, h1)
+        | (.panic p, h1) => (.panic p, h1)
 
 def onCell (h : Heap β) (t : Nat) (f : GCell β → Outcome Out × GCell β) : Outcome Out × Heap β :=
   match h[t]? with
@@ -186,8 +190,9 @@ def implI : BitsI BitString where
   fresh := BitString.new cellBits
   remaining := fun s =>
     match BitString.readRemainingBits s with
-    | (.ok r, _) => r
-    | _ => { buf := [], cap := 0, len := 0, rCursor := 0 }   -- `bs, _ := s.ReadBits(...)`: the zero value on error
+    | (.ok r, _) => .ok r
+    | (.err _, _) => .ok { buf := [], cap := 0, len := 0, rCursor := 0 }   -- `bs, _ := s.ReadBits(...)`: the zero value
+    | (.panic p, _) => .panic p
   len := fun s => s.len
   availRead := BitString.bitsAvailableForRead
   availWrite := BitString.bitsAvailableForWrite
@@ -197,7 +202,7 @@ def specI : BitsI Ideal where
   runOp := ZOp.spec
   reset := fun t => { t with pos := 0 }
   fresh := ⟨[], cellBits, 0⟩
-  remaining := fun t => ⟨t.bits.drop t.pos, t.bits.length - t.pos, 0⟩
+  remaining := fun t => .ok ⟨t.bits.drop t.pos, t.bits.length - t.pos, 0⟩
   len := fun t => t.bits.length
   availRead := fun t => (t.bits.length : Int) - t.pos
   availWrite := fun t => (t.cap : Int) - t.bits.length
